@@ -19,6 +19,10 @@ CONSTANTS N,          \* number of nodes (named 1..N)
           MaxLinks,   \* bound on the number of Link actions in a history
           ForestOnly  \* TRUE: a link either joins two components or repeats an existing link
 
+\* Node.__add__ repeats the depth-first rebuild until no route table changes (repair of the stale-table defect on cyclic
+\* graphs).  SinglePass == TRUE gives the behaviour before the repair (one sweep), kept as a named deviation.
+SinglePass == FALSE
+
 Nodes == 1..N
 NoRoute == <<0, 0>>
 
@@ -127,6 +131,12 @@ Upd(nb, rt, lock, s) ==
              IN IF n \in prev[2] THEN prev ELSE Upd(nb, prev[1], prev[2], n)
   IN Visit[Len(nb[s])]
 
+\* repeat the sweep from a until nothing changes; at most N + 2 sweeps are ever needed (checked by SweepsBounded)
+RECURSIVE Sweep(_, _, _, _)
+Sweep(nb, rt, a, fuel) ==
+  LET rt2 == TLCEval(Upd(nb, rt, {}, a)[1])
+  IN IF rt2 = rt \/ fuel = 0 \/ SinglePass THEN <<rt2, fuel>> ELSE Sweep(nb, rt2, a, fuel - 1)
+
 LinkAllowed(a, b) ==
   /\ a # b
   /\ ForestOnly => (Linked(nbrs, a, b) \/ ~Connected(nbrs, a, b))
@@ -136,7 +146,7 @@ Link(a, b) ==
   /\ LinkAllowed(a, b)
   /\ LET nb2 == TLCEval([nbrs EXCEPT ![a] = AppendUnique(@, b), ![b] = AppendUnique(@, a)])
      IN /\ nbrs' = nb2
-        /\ routes' = TLCEval(Upd(nb2, routes, {}, a))[1]
+        /\ routes' = Sweep(nb2, routes, a, N + 2)[1]
   /\ hist' = Append(hist, <<a, b>>)
 
 Init ==
@@ -157,6 +167,10 @@ Shortest    == ShortestP(nbrs, routes)
 StepsExact  == StepsExactP(nbrs, routes)
 TreeUnique  == ForestP(nbrs) => ShortestP(nbrs, routes)
 IsForest    == ForestOnly => ForestP(nbrs)
+
+\* the repeated sweep always reaches its fixed point within N + 2 passes (fuel never runs out)
+SweepsBounded ==
+  [][\A a, b \in Nodes : hist' = Append(hist, <<a, b>>) => Sweep(nbrs', routes, a, N + 2)[2] > 0]_vars
 
 \* registering more links never changes an existing route's endpoints' connectivity: a link only adds
 NbrsMonotone == [][\A a \in Nodes : SeqSet(nbrs[a]) \subseteq SeqSet(nbrs'[a])]_vars
